@@ -464,4 +464,77 @@ def terStepH (c : Fl) (st : TerSt) (op : TerOp) : TerSt :=
 
 def terRun (c : Fl) (st : TerSt) (ops : List TerOp) : TerSt := ops.foldl (terStepH c) st
 
+/-! ### two live objects configured with ONE Python object
+
+  Python hands objects over by reference: two quantizers built from one list (`axes = [-1];
+  binary(scale_axis=axes); binary(scale_axis=axes)`) hold the SAME list, and `self.scale_axis` is that list
+  (TF's ListWrapper writes through).  No operation of the code writes to it: `_normalize_scale_axis` builds a
+  new list (`[a + len_axis if a < 0 else a for a in scale_axis]`), `_get_unrolled_shape` works on `.copy()`s,
+  an ndarray alpha is only read.  So in the model every object has its own (immutable) attributes and the
+  only thing a pair shares is the process-level `Env`.  `binRun2` / `terRun2` run a history addressed to two
+  objects; Props/C04 proves that each object sees exactly its own operations plus the format switches. -/
+
+/-- which of the two objects an operation is addressed to -/
+inductive Which
+  | fst | snd
+  deriving Repr, DecidableEq
+
+structure BinSt2 where
+  env : Env
+  fst : BinObj
+  snd : BinObj
+  outs1 : List (Except Err (List Elt))
+  outs2 : List (Except Err (List Elt))
+
+def BinSt2.view (st : BinSt2) : Which → BinSt
+  | .fst => { env := st.env, obj := st.fst, outs := st.outs1 }
+  | .snd => { env := st.env, obj := st.snd, outs := st.outs2 }
+
+def binStep2 (c : Fl) (st : BinSt2) (p : Which × BinOp) : BinSt2 :=
+  let s := binStep c (st.view p.1) p.2
+  match p.1 with
+  | .fst => { st with env := s.env, fst := s.obj, outs1 := s.outs }
+  | .snd => { st with env := s.env, snd := s.obj, outs2 := s.outs }
+
+def binRun2 (c : Fl) (st : BinSt2) (ops : List (Which × BinOp)) : BinSt2 := ops.foldl (binStep2 c) st
+
+/-- what an operation on the OTHER object means for this one: only the process-level data format is shared -/
+def BinOp.onOther : BinOp → List BinOp
+  | .setFormat b => [.setFormat b]
+  | _ => []
+
+/-- the history one object of a pair sees: its own operations and every data-format switch -/
+def projOps (w : Which) : List (Which × BinOp) → List BinOp
+  | [] => []
+  | (w', op) :: t => (if w' = w then [op] else op.onOther) ++ projOps w t
+
+/-- the same for a pair of `ternary` / `stochastic_ternary` objects (configured with one ndarray alpha /
+    threshold) -/
+structure TerSt2 where
+  env : Env
+  fst : TerObj
+  snd : TerObj
+  outs1 : List (Except Err (List Elt))
+  outs2 : List (Except Err (List Elt))
+
+def TerSt2.view (st : TerSt2) : Which → TerSt
+  | .fst => { env := st.env, obj := st.fst, outs := st.outs1 }
+  | .snd => { env := st.env, obj := st.snd, outs := st.outs2 }
+
+def terStep2 (c : Fl) (st : TerSt2) (p : Which × TerOp) : TerSt2 :=
+  let s := terStepH c (st.view p.1) p.2
+  match p.1 with
+  | .fst => { st with env := s.env, fst := s.obj, outs1 := s.outs }
+  | .snd => { st with env := s.env, snd := s.obj, outs2 := s.outs }
+
+def terRun2 (c : Fl) (st : TerSt2) (ops : List (Which × TerOp)) : TerSt2 := ops.foldl (terStep2 c) st
+
+def TerOp.onOther : TerOp → List TerOp
+  | .setFormat b => [.setFormat b]
+  | _ => []
+
+def projOpsT (w : Which) : List (Which × TerOp) → List TerOp
+  | [] => []
+  | (w', op) :: t => (if w' = w then [op] else op.onOther) ++ projOpsT w t
+
 end QKV.BT
